@@ -13,6 +13,7 @@ Definition entry_E2 (orc : oracle) (name : string) (v : value) : option value :=
   if name =? "parse_svg_path" then
     Some (v_res v_cmds (parse_svg_path (getB (arg 0 v)) (list_of_string (getS (arg 1 v)))))
   else if name =? "grammar" then Some (v_opt v_cmds (grammar (list_of_string (getS v))))
+  else if name =? "lexeme_ok" then Some (VB (lexeme_ok (getB (arg 0 v)) (list_of_string (getS (arg 1 v)))))
   else if name =? "print_path" then
     Some (VS (string_of_list (print_path string (fun s : string => list_of_string s)
               (map (fun c => (chr_of_s (getS (arg 0 c)), map getS (getL (arg 1 c)))) (getL v)))))
